@@ -562,6 +562,49 @@ def rule_a6(F):
     return r
 
 
+def rule_a7(F):
+    """A parameter may only disappear from a generated signature if the Rust side passes nothing for it. Registered types
+    (Val<T>) are handed over as a pointer whatever their size (AsParam of the Value impl), so the lowering must not elide them:
+    lower_type's `None` (= no IR value, dropped from signatures and argument lists) must not be decided before the kind of the type
+    has been looked at."""
+    r = RuleResult("C05.A7", "types the Rust side passes by pointer are never elided from generated signatures (zero-size elision only after the kind of the type is known)", floor=2)
+    vi = [i for i in F.impls() if i.get("trait") == "value::Value" and i["self_ty"].startswith("value::val::Val<")]
+    if not vi:
+        r.missing("impl Value for Val<T>")
+        return r
+    asp = [x.get("ty") for x in vi[0]["items"] if x["dk"] == "AssocTy" and x["name"] == "AsParam"]
+    by_ptr = bool(asp) and (asp[0] or "").startswith("*mut")
+    r.inst("Val<T>::AsParam", {"as_param": asp[0] if asp else None, "passed_by_pointer_regardless_of_size": by_ptr})
+    ps = [p for p in F.paths() if p.endswith("::lower_type") and "lir::lower" in p]
+    if not ps:
+        r.missing("lir::lower lower_type")
+        return r
+    b = F.body(ps[0])
+    defs = mir.Defs(b)
+    dom = mir.dominators(b)
+    kind_switches = []
+    for bi, blk in enumerate(b.blocks):
+        t = blk["term"]
+        if t["k"] == "switch" and mir.is_place_op(t["o"]):
+            for d in defs.whole_defs(t["o"][1][0]):
+                if d[2] == "assign" and d[3]["rv"]["k"] == "discr" and (d[3]["rv"].get("ty") or "").endswith("mir::ty::Ty"):
+                    kind_switches.append(bi)
+    n = 0
+    for bi, st in mir.agg_sites(b, "std::option::Option"):
+        if st["rv"].get("variant") != "None" or st["p"] != [0]:
+            continue
+        n += 1
+        after_kind = any(k in dom[bi] for k in kind_switches)
+        r.inst("lower_type None #%d" % n, {"line": st["line"], "decided_after_kind_test": after_kind})
+        if by_ptr and not after_kind:
+            r.bad(b.path, "zero-size elision before kind test", relfile(b.file), st["line"],
+                  "lower_type answers `None` (no IR value: the parameter is dropped from signatures and argument lists) for every zero-sized type before looking at its kind, "
+                  "including registered types, which Rust passes as a pointer whatever their size: with a zero-sized Val<T> in a non-last position the following arguments are shifted")
+    if n == 0:
+        r.missing("None result in lower_type")
+    return r
+
+
 def rules(ctx):
     F = ctx["F"]
-    return [rule_a1(F), rule_a2(F), rule_a3(F), rule_a4(F), rule_a5(F), rule_a6(F)]
+    return [rule_a1(F), rule_a2(F), rule_a3(F), rule_a4(F), rule_a5(F), rule_a6(F), rule_a7(F)]
